@@ -12,6 +12,7 @@ import (
 	"os/exec"
 	"path/filepath"
 	"runtime"
+	"runtime/debug"
 	"sort"
 	"strconv"
 	"strings"
@@ -360,6 +361,9 @@ func work(a []string) int {
 	if c == nil {
 		return 2
 	}
+	// runaway recursion in the code under test must die quickly (fatal error:
+	// stack overflow) instead of eating gigabytes first
+	debug.SetMaxStack(64 << 20)
 	r := newRec(id)
 	// merge an earlier partial record of this shard (after a crash restart)
 	if b, err := os.ReadFile(out + ".partial"); err == nil {
@@ -595,6 +599,10 @@ func drive(id, tier string) int {
 				}
 				os.Rename(out+".stderr", fmt.Sprintf("%s.stderr.%d", out, attempt))
 				startAfter = ci
+				if len(rs.crashes) >= 3 {
+					// enough witnesses from this shard: do not spend the watchdog budget again and again
+					break
+				}
 			}
 			ch <- rs
 		}(s)
